@@ -482,17 +482,17 @@ CLAIMS.update({
                 'writeLoop, timerLoop, Shutdown, both constructors and the blocking-write wait; Broadcast vs Signal in unregisterStream / onInboundStreamReset; closeNetConn on a write error) and '
                 'C09_choreography_matches_code decides that it is the one the proofs are about. Theorems: C09_no_stuck_state (teardown set off => everything finished or some process of the package '
                 'can move without the environment), C09_terminates (a measure strictly decreased by every step; every maximal run ends with all goroutines stopped and all calls returned), '
-                'C09_results / C09_results_constructor (what each blocked call returns), C09_no_write_after_close (at most one Write after Close, it fails and ends writeLoop), '
+                'C09_results / C09_results_constructor (what each blocked call returns), C09_shutdown_interrupted (the completion flag is raised only by the peer\'s SHUTDOWN-ACK / SHUTDOWN-COMPLETE; a waiting Shutdown that returns without it returns an error), C09_no_write_after_close (at most one Write after Close, it fails and ends writeLoop), C09_terminal_error_sticky (once the streams are unregistered no step and no late read-deadline expiry changes what a read returns; tied to the `if s.readErr == nil` guard of the deadline helper), '
                 'C09_close_idempotent (netConn.Close at most once; Close on a closed association changes nothing), C09_abort_carries_cause (the stored cause is what goes on the wire; an inbound '
                 'ABORT makes its cause the close error, which never changes and is what every released reader of a non-reset stream gets). SYSTEM LEVEL (sampled): Close / several concurrent '
                 'Close+Abort / transport read failure / write failure / context cancellation (also exactly while the COOKIE-ACK is being processed) injected after the k-th wire event of runs '
-                'through handshake, transfer, stream reset and shutdown, with callers parked in Connect, Accept, Read (1-4 readers on the SAME stream), Write, Shutdown: every goroutine of the '
+                'through handshake, transfer, stream reset and shutdown, with callers parked in Connect, Accept, Read (1-4 readers on the SAME stream; an IDLE reader whose long read deadline expires only after the teardown and who then sets a new deadline and reads), Write, Shutdown: every goroutine of the '
                 'package must be gone when the synctest bubble ends (a real-time watchdog catches deadlocks that involve a mutex), no write after close, repeated Close harmless, ABORT cause at the peer.',
         'note': CONC_NOTE + ' Model assumptions: one constructor call per association, API calls only after it returned, completeHandshake attempted at most once (the code can attempt it twice when '
                 'the last T1 expiry races with the answer), stream identifiers not reused after a reset; "promptly" = without further help from the environment. A critical section that contains '
-                'no blocking operation is one atomic step (C20_interleaving_refines_sequence). KNOWN FINDINGS (witnesses replayed every run): K09-shutdown-nil - a waiting Shutdown returns nil when a '
-                'teardown, not the shutdown sequence, closed closeWriteLoopCh (C09_shutdown_nil_witness); K09-read-deadline-goroutine - the helper goroutine of SetReadDeadline outlives Close until '
-                'its deadline.',
+                'no blocking operation is one atomic step (C20_interleaving_refines_sequence). FIXED FINDING D22 / K09-shutdown-nil (/repo 52b27be): a waiting Shutdown returned nil whenever closeWriteLoopCh closed; it now returns nil only after the peer\'s '
+                'SHUTDOWN-ACK / SHUTDOWN-COMPLETE - modelled (C09_shutdown_interrupted, C09_shutdown_error_regression) and demanded by the e2e predicate. KNOWN FINDING (witness replayed every run): '
+                'K09-read-deadline-goroutine - the helper goroutine of SetReadDeadline outlives Close until its deadline.',
         'technique': 'Lean 4 proof (inductive invariant + progress argument + termination measure over a parametric transition system, arbitrary number of callers) on a choreography read off '
                      'translator facts by decide + seeded teardown injection on real association pairs in virtual time with Lean-defined predicates',
     },
